@@ -470,7 +470,8 @@ def rEx (d : Backend) : Ex → Pieces
   | .value v => [.p v]
   | .values vs => [S "("] ++ rVals true vs ++ [S ")"]
   | .cust s => [.raw s.toList]
-  | .custWith t vals => rTemplate d t (rExEach d vals)
+  -- the empty raw piece writes nothing; it marks the expansion as caller-supplied text
+  | .custWith t vals => .raw [] :: rTemplate d t (rExEach d vals)
   | .keyword k => rKw k
   | .asEnum ty e =>
     match d with
